@@ -1,4 +1,7 @@
 import DoltVerif.Lemmas.NbsFiles
+import DoltVerif.Lemmas.NbsFindOffsets
+import DoltVerif.Lemmas.NbsArc
+import DoltVerif.Lemmas.NbsStore
 /-!
 C01 — Chunk reads return exactly the bytes stored under that address.
 
@@ -55,16 +58,67 @@ def unsortedWitness : Bool :=
     == some ([⟨⟨2, 7⟩, false⟩, ⟨⟨1, 7⟩, false⟩], true)
 #guard unsortedWitness
 
-/-- statements planned but not proved (checked only by correspondence + oracle) -/
-def findOffsets_spec_full : Prop :=
-  ∀ (ix : Idx), WF ix → SortedArr ix.pfx → ∀ (reqs : List GetRec),
-    reqs.Pairwise (fun x y => x.a.pre ≤ y.a.pre) →
-    ∃ out recs rem, findOffsets ix reqs = some (out, recs, rem) ∧ out.length = reqs.length ∧
-      (∀ r ∈ recs, Mem ix r.a) ∧ (rem = false → ∀ o ∈ out, o.found = true)
+/-- `tableReader.findOffsets` on a prefix-sorted request list: no panic; already-found and absent
+requests are left alone and yield no record; every other request is marked found and yields exactly
+one offset record — its own address with the index entry `(offset, length)` of a row that *is* that
+address — (`FoRel`); `remaining = false` only if every request is found; the returned records are
+the same records sorted by offset. -/
+theorem findOffsets_spec (ix : Idx) (hwf : WF ix) (hs : SortedArr ix.pfx) (reqs : List GetRec)
+    (hsorted : reqs.Pairwise (fun x y => x.a.pre ≤ y.a.pre)) :
+    ∃ out recs rem, findOffsets ix reqs = some (out, sortByOff recs, rem) ∧ FoRel ix reqs out recs ∧
+      (rem = false → ∀ o ∈ out, o.found = true) ∧
+      (sortByOff recs).Pairwise (fun a b => a.off ≤ b.off) ∧ (sortByOff recs).length = recs.length ∧
+      (∀ r, r ∈ sortByOff recs ↔ r ∈ recs) := by
+  obtain ⟨out, recs, rem, h1, h2, _, h4⟩ := findOffsetsGo_spec ix hwf hs reqs 0 false (Nat.zero_le _) hsorted
+    (fun _ _ k _ hk => absurd hk (Nat.not_lt_zero k))
+  exact ⟨out, recs, rem, by simp [findOffsets, h1], h2, h4, sortByOff_pairwise recs, sortByOff_length recs,
+    fun r => mem_sortByOff r recs⟩
 
-def prollyBinSearch_lowerBound_full : Prop :=
-  ∀ (s : Array Nat) (t : Nat), SortedArr s → (∀ i (h : i < s.size), s[i] < 18446744073709551616) →
-    t < 18446744073709551616 → ∃ r, prollyBinSearch s t = some r ∧ IsLowerBound s t r
+/-- `prollyBinSearch` (the archive's interpolation search) terminates, never panics (no division by
+zero, no `Div64` overflow, no index out of range) and returns the lower bound — for **every** sorted
+slice: dense, sparse, all-equal, any distribution.  (The Go comment asks for "well distributed"
+values; that only matters for speed.) -/
+theorem prollyBinSearch_lowerBound (s : Array Nat) (t : Nat) (hs : SortedArr s) (hsz : s.size < 18446744073709551616) :
+    ∃ r, prollyBinSearch s t = some r ∧ IsLowerBound s t r := prollyBinSearch_spec s t hs hsz
+
+/-- `archiveReader.findIndex` decides membership of the full address among any number of rows sharing
+the prefix, and never panics. -/
+theorem archive_findIndex_spec (ar : Arc) (a : Addr) (hwf : AWF ar) :
+    (∃ k, findIndex ar a = some (some k) ∧ ARowIs ar k a) ∨
+    (findIndex ar a = some none ∧ ∀ k, ¬ ARowIs ar k a) := findIndex_spec ar a hwf
+
+/-! ### Store level (simplified store model, `Model/NbsStore.lean`) -/
+
+open DoltVerif.NbsStore in
+/-- all read paths of a store agree with one abstract map `Addr → Option Bytes`: `Get` is the map,
+`Has` is its domain, `GetMany` delivers exactly the requested part of its graph, `HasMany` reports
+exactly the requested addresses outside its domain. -/
+theorem store_reads_agree (s : Store) :
+    (∀ a, s.get a = s.abs a) ∧ (∀ a, s.has a = (s.abs a).isSome) ∧
+    (∀ as p, p ∈ s.getMany as ↔ p.1 ∈ as ∧ s.abs p.1 = some p.2) ∧
+    (∀ as, s.hasMany as = as.filter (fun a => (s.abs a).isNone)) :=
+  ⟨get_eq_abs s, has_eq_abs s, getMany_spec s, NbsStore.hasMany_spec s⟩
+
+open DoltVerif.NbsStore in
+/-- for every history of put / commit (flush with de-duplication against the tables) / reopen:
+an address is readable iff it was written -/
+theorem store_present_iff_written (ops : List Op) (a : Addr) :
+    ((run ops).get a).isSome ↔ a ∈ (written ops).map (·.1) := by
+  rw [get_eq_abs]; exact NbsStore.store_present_iff_written ops a
+
+open DoltVerif.NbsStore in
+/-- … and what is read is bytes that were written under that very address; hence, if every write is
+content-addressed (`H d = a`), so is every read -/
+theorem store_content_addressed (H : NbsStore.Bytes → Addr) (ops : List Op) (hw : ∀ e ∈ written ops, H e.2 = e.1)
+    (a : Addr) (d : NbsStore.Bytes) (h : (run ops).get a = some d) : H d = a :=
+  NbsStore.store_content_addressed H ops hw a d h
+
+open DoltVerif.NbsStore in
+/-- generational store (old generation consulted first, then new): same agreement -/
+theorem generational_reads_agree (g : Gen) :
+    (∀ a, g.get a = g.abs a) ∧ (∀ a, g.has a = (g.abs a).isSome) ∧
+    (∀ as, g.hasMany as = as.filter (fun a => (g.abs a).isNone)) :=
+  ⟨gen_get_eq_abs g, gen_has_eq_abs g, gen_hasMany_spec g⟩
 
 /-! ### Journal range index -/
 
@@ -165,5 +219,14 @@ example : [(⟨⟨5, 11⟩, false⟩ : HasRec), ⟨⟨5, 13⟩, false⟩, ⟨⟨
     == some ([⟨⟨5, 12⟩, true⟩, ⟨⟨5, 13⟩, false⟩, ⟨⟨9, 11⟩, true⟩, ⟨⟨10, 0⟩, false⟩, ⟨⟨11, 0⟩, true⟩], true)
 
 example : (jrun [.put ⟨1, 7⟩ (0, 3), .flatten, .put ⟨2, 9⟩ (5, 4)]).get ⟨2, 9⟩ = some (5, 4) := by decide
+
+example : [(⟨⟨5, 11⟩, false⟩ : GetRec), ⟨⟨5, 13⟩, false⟩, ⟨⟨9, 11⟩, true⟩].Pairwise (fun x y => x.a.pre ≤ y.a.pre) := by
+  simp
+
+#guard prollyBinSearch #[5, 5, 5, 5] 5 == some 0 && prollyBinSearch #[0, 1, 2, 18446744073709551615] 3 == some 3
+#guard (findOffsets exIdx [⟨⟨5, 12⟩, false⟩, ⟨⟨5, 13⟩, false⟩, ⟨⟨9, 11⟩, false⟩]).map (fun r => (r.2.1.map (fun o => (o.off, o.len)), r.2.2))
+    == some ([(4, 6), (10, 3)], true)
+#guard (NbsStore.run [.put ⟨1, 1⟩ [1], .commit, .put ⟨1, 2⟩ [2], .put ⟨1, 1⟩ [1], .reopen, .put ⟨2, 2⟩ [3]]).getMany [⟨1, 1⟩, ⟨1, 3⟩, ⟨2, 2⟩]
+    == [(⟨2, 2⟩, [3]), (⟨1, 1⟩, [1])]
 
 end DoltVerif.C01
